@@ -444,3 +444,39 @@ Proof.
   destruct (wire_order_accepted _ _ _ He (run_cev_ok evs _) mf Hs) as (mf' & Hs' & _).
   unfold accepts. rewrite (monitor_run_steps _ _ _ 0%nat Hs'). reflexivity.
 Qed.
+
+(* ---- settings persist until changed ----
+   What the client holds as the peer's limits is carried from one SETTINGS frame to the next: a
+   frame that does not mention an identifier leaves that limit alone (the only exception is the
+   transport's own cap of 100 streams, replaced by 1000 when the peer's FIRST frame is silent
+   about MAX_CONCURRENT_STREAMS).  Stated for the step function the traces are replayed through. *)
+Lemma fold_settings_absent : forall kvs c,
+  (has_setting S_MAX_FRAME_SIZE kvs = false -> cc_max_frame (fold_left client_setting kvs c) = cc_max_frame c) /\
+  (has_setting S_MAX_CONCURRENT_STREAMS kvs = false -> cc_max_streams (fold_left client_setting kvs c) = cc_max_streams c) /\
+  (has_setting S_INITIAL_WINDOW_SIZE kvs = false -> cc_init_win (fold_left client_setting kvs c) = cc_init_win c).
+Proof.
+  unfold has_setting. induction kvs as [|[id v] r IH]; intros c; cbn [fold_left existsb fst]; [auto|].
+  destruct (IH (client_setting c (id, v))) as (A & B & C0).
+  unfold S_MAX_FRAME_SIZE, S_MAX_CONCURRENT_STREAMS, S_INITIAL_WINDOW_SIZE in *.
+  repeat split; intros H; apply orb_false_iff in H as [H1 H2];
+    [rewrite (A H2)|rewrite (B H2)|rewrite (C0 H2)]; unfold client_setting, S_MAX_FRAME_SIZE, S_MAX_CONCURRENT_STREAMS, S_INITIAL_WINDOW_SIZE;
+    destruct (id =? 5) eqn:E5; try reflexivity; try lia;
+    destruct (id =? 3) eqn:E3; try reflexivity; try lia;
+    destruct (id =? 4) eqn:E4; try reflexivity; lia.
+Qed.
+
+Theorem limits_persist : forall c kvs,
+  let c' := fst (conn_step c (ESettings kvs)) in
+  (has_setting S_MAX_FRAME_SIZE kvs = false -> cc_max_frame c' = cc_max_frame c) /\
+  (has_setting S_INITIAL_WINDOW_SIZE kvs = false -> cc_init_win c' = cc_init_win c) /\
+  (has_setting S_MAX_CONCURRENT_STREAMS kvs = false -> cc_seen_settings c = true -> cc_max_streams c' = cc_max_streams c) /\
+  (has_setting S_MAX_CONCURRENT_STREAMS kvs = false -> cc_seen_settings c = false -> settings_valid kvs = true ->
+     cc_max_streams c' = c_defaultMaxConcurrentStreams).
+Proof.
+  intros c kvs. cbv zeta. cbn [conn_step]. destruct (settings_valid kvs); cbn [fst].
+  - destruct (fold_settings_absent kvs c) as (A & B & C0). cbn [cc_max_frame cc_init_win cc_max_streams].
+    repeat split; auto.
+    + intros H Hs. rewrite H, Hs. cbn. apply B. exact H.
+    + intros H Hs _. rewrite H, Hs. reflexivity.
+  - repeat split; auto. intros; discriminate.
+Qed.
